@@ -29,7 +29,7 @@ class_model("HedTag", {
     "known": "Bool",            # bool(self._schema_entry)
 })
 
-class_model("HedGroup", {"_startpos": "Int", "_endpos": "Int", "_hed_string": "Str"})
+class_model("HedGroup", {"_startpos": "Int", "_endpos": "Int", "_hed_string": "Str", "__str__": "Str"})
 class_model("HedString", {"_from_strings": "Opaque"}, bases=["HedGroup"])
 
 
